@@ -8,3 +8,26 @@ func VerifHeightLimit(β, n int) int { return limitFunc(β)(n) }
 
 // VerifHeightLimitFunc returns the limit function itself (one math.Log per call, as in the tree).
 func VerifHeightLimitFunc(β int) func(int) int { return limitFunc(β) }
+
+// VerifHeightDeepest walks the node pointers (no Cursor involved) and returns the depth of the
+// deepest key below the root (-1 for an empty tree) and the first key found at that depth in
+// preorder.  One pass over the nodes: cheap enough to run after every operation on a big tree.
+func VerifHeightDeepest[T any](t *Tree[T]) (height int, deepest T, ok bool) {
+	height = -1
+	var rec func(n *node[T], d int)
+	rec = func(n *node[T], d int) {
+		if n == nil {
+			return
+		}
+		if d > 1<<22 {
+			panic("cycle")
+		}
+		if d > height {
+			height, deepest, ok = d, n.X, true
+		}
+		rec(n.left, d+1)
+		rec(n.right, d+1)
+	}
+	rec(t.root, 0)
+	return
+}
